@@ -104,6 +104,15 @@ type realRun struct {
 	ticker   string
 	drains   int
 	sentinel int
+	// drainPoison, when non-nil, says for which calls (nth Drain, key, index of arrival) the function
+	// passed to Drain panics after it has recorded the delivery (drainpanic_test.go)
+	drainPoison func(nth, key, idx int) bool
+	drainPanics map[int]int
+	// drainRearm, when non-nil: ticks with which the function sets the key it was called with again
+	// (0: it does not touch the wheel)
+	drainRearm  func(nth, key, idx int) int
+	drainResets map[int]int
+	drainClosed map[int]bool // the verdict on that Drain is in: unwinding calls are ignored
 }
 
 func (rr *realRun) now() time.Duration { return time.Since(rr.start) }
@@ -158,11 +167,41 @@ func (rr *realRun) do(actor string, k opKind, key, steps int, fr time.Duration) 
 		nth := rr.drains
 		rr.mu.Unlock()
 		o.Val = nth
+		arrival := 0
 		o.err = rr.tw.Drain(func(k, v any) {
 			t := rr.now()
 			rr.mu.Lock()
+			if rr.drainClosed[nth] {
+				rr.mu.Unlock()
+				return
+			}
 			rr.fires = append(rr.fires, rfire{Key: k.(int), Val: v.(int), T: t, Drain: nth})
+			idx := arrival
+			arrival++
+			bang := rr.drainPoison != nil && rr.drainPoison(nth, k.(int), idx)
+			if bang {
+				if rr.drainPanics == nil {
+					rr.drainPanics = map[int]int{}
+				}
+				rr.drainPanics[nth]++
+			}
+			again := 0
+			if rr.drainRearm != nil {
+				if again = rr.drainRearm(nth, k.(int), idx); again > 0 {
+					if rr.drainResets == nil {
+						rr.drainResets = map[int]int{}
+					}
+					rr.drainResets[nth]++
+				}
+			}
 			rr.mu.Unlock()
+			if again > 0 {
+				rr.do("drain-fn", opSet, k.(int), again, 0)
+			}
+			if bang {
+				kit.Obs("drain_fn_panics", 1)
+				panic("c12: poisoned drain callback")
+			}
 		})
 	}
 	o.A = rr.now()
